@@ -1,2 +1,3 @@
 pub mod proof_graph;
 pub mod modules;
+pub mod tms;
